@@ -1,6 +1,6 @@
 //@unit comm
 //@include models/exchange.rs
-//@thread maybe_poll do_read posix::poll libc_poll .read .write .read_into .communicate_bytes Instant::now:ro
+//@thread maybe_poll do_read posix::poll libc_poll .read .write .read_into .communicate_bytes .read_string Instant::now:ro
 
 // ================================================================ the real posix::poll wrapper (its >24.8-day loop), over libc_poll
 pub mod posix_impl {
@@ -297,6 +297,8 @@ impl Communicator {
             r is Ok ==> r->Ok_0.0.is_some() == old(self).inner.stdout.is_some() && r->Ok_0.1.is_some() == old(self).inner.stderr.is_some(), //[C02]
             r is Ok && r->Ok_0.0.is_some() ==> r->Ok_0.0.unwrap()@ == lossy(consumed(old(w).s.sout, final(w).s.sout)), //[C02]
             r is Ok && r->Ok_0.1.is_some() ==> r->Ok_0.1.unwrap()@ == lossy(consumed(old(w).s.serr, final(w).s.serr)), //[C02]
+            r is Ok && old(self).size_limit.is_none() ==> final(self).inner.stdin.is_none() && !live(final(w).s, 0) && !live(final(w).s, 1) && !live(final(w).s, 2), //[C01]
+            final(self).inner.stdin.is_none() && old(self).inner.stdin.is_some() ==> final(w).s.sin.accepted == final(w).s.sin.intended, //[C02]
 //@end
 
 //@fn Communicator::limit_size
@@ -378,6 +380,26 @@ impl Popen {
         r is Ok && r->Ok_0.1.is_some() ==> r->Ok_0.1.unwrap()@ == consumed(old(w).s.serr, final(w).s.serr), //[C02]
         // no time limit was set: the call never reports a timeout
         r is Err ==> r->Err_0.kind != io::ErrorKind::TimedOut, //[C04]
+//@end
+//@fn Popen::communicate vis=pub world=mut
+//@rreplace 1 /s\.as_bytes\(\)\.to_vec\(\)/ => /str_to_vec(s)/
+//@closure 0 |s: &str| -> (v: Vec<u8>)
+        ensures v@ == str_bytes(s)
+//@closure 1 |e: CommunicateError| -> (x: io::Error)
+        ensures x == e.error
+//@contract
+    requires
+        old(self).stdin.is_some() == input_data.is_some(),
+        fresh_exchange(*old(self), match input_data { Some(i) => str_bytes(i), None => Seq::<u8>::empty() }, old(w).s),
+        remaining(old(w).s.sout) + remaining(old(w).s.serr) <= usize::MAX,
+    ensures
+        // the text-returning variant: the child receives the UTF-8 bytes of the input, and each result is the lossy decoding of exactly
+        // what the child wrote to that stream
+        r is Ok ==> !live(final(w).s, 0) && !live(final(w).s, 1) && !live(final(w).s, 2), //[C01,C02]
+        r is Ok && old(self).stdin.is_some() ==> final(w).s.sin.accepted == final(w).s.sin.intended, //[C02]
+        r is Ok ==> r->Ok_0.0.is_some() == old(self).stdout.is_some() && r->Ok_0.1.is_some() == old(self).stderr.is_some(), //[C02]
+        r is Ok && r->Ok_0.0.is_some() ==> r->Ok_0.0.unwrap()@ == lossy(consumed(old(w).s.sout, final(w).s.sout)), //[C02]
+        r is Ok && r->Ok_0.1.is_some() ==> r->Ok_0.1.unwrap()@ == lossy(consumed(old(w).s.serr, final(w).s.serr)), //[C02]
 //@end
 }
 }
